@@ -296,7 +296,7 @@ def _run(ctx):
                 check_tree(ctx, si, t, L.join_tokens(rng, L.tokens_of(t)), batch, 'chain2')
     triples = [(a, b, c, o1, o2) for a in ALPHA12 for b in ALPHA12 for c in ALPHA12 for o1 in ops for o2 in ops]
     if not ctx.thorough():
-        triples = rng.sample(triples, ctx.n(3000, 0))
+        triples = rng.sample(triples, min(len(triples), ctx.n(3000, 0)))
     for a, b, c, o1, o2 in triples:
         t = ('chain', a, [(o1, b), (o2, c)])
         check_tree(ctx, si, t, L.join_tokens(rng, L.tokens_of(t)), batch, 'chain3')
